@@ -281,6 +281,60 @@ def long_lived(R):
             R.mon["long_lived_clients_ok"] += 1
 
 
+def error_objects(R):
+    """The exception a call raises is an ordinary object the caller keeps, logs, copies or
+    sends to another process: the same error answered twice raises two objects (each with
+    its own traceback), and a copy, deep copy or unpickled copy - where the object allows
+    one at all - still is the documented class carrying the raw status and the offending
+    OID."""
+    import copy
+    import pickle
+
+    ways = (("copy", copy.copy), ("deepcopy", copy.deepcopy), ("pickle", lambda x: pickle.loads(pickle.dumps(x))))
+    for level in ("v2c", "v1", "v3-sha1-priv"):
+        w = World(level, DB)
+        w.prime()
+        st = {"status": 1}
+
+        def always(req, resp):
+            return {"type": 0xA2, "request_id": resp["request_id"], "error_status": st["status"], "error_index": 1, "varbinds": [(o, ("null", None)) for o, _ in req["varbinds"]]}
+
+        w.agent.pdu_hook = always
+        for status in STATUSES:
+            st["status"] = status
+            case = {"level": level, "op": "error-objects", "status": status, "index": 1, "nvb": None, "when": 0, "nreq": 1}
+            caught = []
+            for _ in range(3):
+                w.seam.reset(budget=6)
+                w.agent.requests.clear()
+                res = rig.outcome(lambda: drive(w.client.get(OID(KEYS[0]))))
+                R.evaluations += 1
+                if res[0] != "exc" or type(res[1]) is not CLASSES.get(status, ErrorResponse) or getattr(res[1], "error_status", None) != status:
+                    R.violation(case, "status %d surfaced as %r" % (status, res[1]), None)
+                    return
+                caught.append(res[1])
+            if len({id(e) for e in caught}) != len(caught):
+                R.violation(case, "the same error answered three times raised the very same exception object (tracebacks %r frames long)" % ([len(list(__import__("traceback").walk_tb(e.__traceback__))) for e in caught],), None)
+                return
+            R.mon["repeated_errors_raise_objects_of_their_own"] += 1
+            orig = caught[0]
+            want = (type(orig), orig.error_status, oid_t(orig.offending_oid))
+            for name, fn in ways:
+                try:
+                    dup = fn(orig)
+                except Exception:  # noqa: BLE001 - refusing to be copied is not a wrong error
+                    R.mon["error_copies_refused"] += 1
+                    continue
+                try:
+                    got = (type(dup), dup.error_status, oid_t(dup.offending_oid))
+                except Exception as exc:  # noqa: BLE001
+                    got = ("unreadable", repr(exc))
+                if got != want:
+                    R.violation(case, "%s of the raised %s (status %d): %r, the original %r" % (name, type(orig).__name__, status, got, want), None)
+                    return
+                R.mon["error_copies_alike"] += 1
+
+
 def matrix():
     """Yield (op, status, index, nvb, when, nreq)."""
     for op in SINGLE_OPS:
@@ -314,6 +368,8 @@ def run(R):
     thread_stress(R)  # in every shard, before this process has seen any error response
     if R.shard == 1 % R.nshards:
         long_lived(R)
+    if R.shard == 2 % R.nshards:
+        error_objects(R)
     k = 0
     # the small deterministic blocks first: a time cap must not starve them
     # hundreds of bindings: error-index values around 127/128 and 256/257 that DO name a
@@ -363,5 +419,8 @@ def replay(R, v):
         return
     if c.get("op") == "long-lived":
         long_lived(R)
+        return
+    if c.get("op") == "error-objects":
+        error_objects(R)
         return
     run_case(R, c["level"], c["op"], c["status"], c["index"], c["nvb"], c["when"], c.get("nreq", 1), reboot=c.get("reboot", False))
